@@ -85,8 +85,13 @@ class Prop(PropBase):
                     train.insert(rng.randrange(len(train) + 1), rng.choice([udp_frame(b'x' * 20, msop, ethertype=0x0806), udp_frame(b'y' * 20, msop, proto=6),
                                                                              udp_frame(b'z' * 30, msop, ipv6=True), udp_frame(b'', msop, ip_id=999, frag_off=800, more=True, raw_ip_payload=bytes(64))]))
                 frames.append(train)
-            for tr in frames:
+            for ti_, tr in enumerate(frames):
+                # bytes behind the end of the IP datagram (Ethernet padding of short frames, a frame check sequence kept by the
+                # capture) on every frame of some trains: they belong to no fragment
+                trail = bytes([0xEE] * [0, 0, 4, 0, 18][(ti_ + k) % 5]) if not any(isinstance(f, tuple) for f in tr) else b''
                 for f in tr:
+                    if not isinstance(f, tuple):
+                        f = f + trail
                     if isinstance(f, tuple):
                         s.lines.append(f'F 0 {f[0]} {f[1].hex()}')
                     else:
@@ -117,6 +122,11 @@ class Prop(PropBase):
         t8 = frags(dgram(8, 4000), 11, 1480); seqs += [t8[0], (len(t8[1]), t8[1][:96]), t8[2]]      # a fragment cut by the snap length
         t9 = frags(dgram(9, 4000), 12, 1480); seqs += [t9[0], udp_frame(dgram(10, 100, difop)[8:], difop, ip_id=12), t9[1], t9[2]]   # unfragmented inside a train
         seqs += frags(dgram(11, 2000), 0, 1480) + [udp_frame(dgram(12, 50)[8:], msop, ip_id=0), udp_frame(dgram(13, 60)[8:], msop, ip_id=0)]   # identification 0
+        # frames longer than their IP datagram: a frame check sequence kept on every frame of a train, a short last fragment and a
+        # short unfragmented datagram padded to the 60-byte Ethernet minimum
+        seqs += [f + bytes([0xFC] * 4) for f in frags(dgram(14, 3500), 13, 1480)]
+        t15 = frags(dgram(15, 2970), 14, 1480); seqs += [t15[0], t15[1], t15[2] + bytes(60 - len(t15[2]))]
+        u16 = udp_frame(dgram(16, 10)[8:], msop, ip_id=15); seqs += [u16 + bytes(60 - len(u16))]
         for f in seqs:
             s.lines.append(f'F 0 {f[0]} {f[1].hex()}' if isinstance(f, tuple) else f'F 0 {len(f)} {f.hex()}')
         s.lines.append('GO 0')
